@@ -14,6 +14,19 @@ pub fn env() -> Option<Env> {
     Some(Env { repo: std::env::var("WACV_REPO").ok()?, verif: std::env::var("WACV_VERIF").ok()?, target: std::env::var("WACV_TARGET").ok()? })
 }
 
+/// scratch directories live on tmpfs when there is one (`/dev/shm`)
+pub fn scratch_base() -> PathBuf {
+    let shm = Path::new("/dev/shm");
+    if shm.is_dir() {
+        let probe = shm.join(format!(".wacv-probe-{}", std::process::id()));
+        if fs::write(&probe, b"x").is_ok() {
+            fs::remove_file(&probe).ok();
+            return shm.to_path_buf();
+        }
+    }
+    std::env::temp_dir()
+}
+
 pub fn write_if_changed(p: &Path, s: &str) {
     if fs::read_to_string(p).ok().as_deref() != Some(s) {
         if let Some(d) = p.parent() {
